@@ -54,6 +54,23 @@ func (r *Run) borrow(keep []string, from, to string, f func()) {
 	f()
 }
 
+// useOpt loads a secondary build configuration; when it does not load or type-check (an edit that only
+// compiles for the primary build) the configuration is skipped with a note instead of breaking the check.
+func (r *Run) useOpt(cfg string) (w *World) {
+	defer func() {
+		if e := recover(); e != nil {
+			if b, ok := e.(brokenErr); ok && cfg != "linux" {
+				r.Notes = append(r.Notes, "configuration "+cfg+" skipped: "+b.msg)
+				fmt.Printf("NOTE: configuration %s skipped: %s\n", cfg, b.msg)
+				w = nil
+				return
+			}
+			panic(e)
+		}
+	}()
+	return r.use(cfg)
+}
+
 func (r *Run) use(cfg string) *World {
 	w := loadWorld(r.Repo, cfg)
 	r.W = w
